@@ -5,7 +5,7 @@ from nodegen import *
 ID = "C09"
 DRIVER = "node"
 MODEL_FILES = ["Model/Base.v", "Model/Parse.v", "Model/Node.v"]
-THEOREMS = ["C09_admin_rq_inert", "C09_admin_line_inert", "C09_secure_user_cmds_inert", "C09_data_needs_db", "C09_failed_usedb_keeps_selection", "C09_has_permission_spec", "C09_user_denied", "C09_get_served", "C09_no_list_no_value"]
+THEOREMS = ["C09_admin_rq_inert", "C09_admin_line_inert", "C09_secure_user_cmds_inert", "C09_data_needs_db", "C09_failed_usedb_keeps_selection", "C09_has_permission_spec", "C09_user_denied", "C09_get_served", "C09_no_list_no_value", "C09_empty_text_grants_nothing", "C09_tombstone_list_denies", "C09_absent_list_denies", "C09_remove_list_revokes", "C09_remove_list_revokes_persisted", "C09_revocation_immediate", "C09_all_remove_new_opens", "C09_all_remove_persisted_closes", "C09_revoke_example"]
 STRENGTH = {t: "proof-unbounded" for t in THEOREMS}
 RULE = ("the matrix {no auth, wrong password, database token, wrong token, user token} x every command word (0-4 arguments) x "
         "permission lists built from subsets of {r,w,i,x} with prefix*/ *suffix / contains patterns x matching and non-matching keys, "
